@@ -27,6 +27,7 @@ type vc09Schema struct {
 	IndexKeys      bool   `json:"indexKeys"`
 	TrackExistence bool   `json:"trackExistence"`
 	Quantum        string `json:"quantum"`
+	NoStandardView bool   `json:"noStandardView"` // time field t
 	IntMin         int64  `json:"intMin"`
 	IntMax         int64  `json:"intMax"`
 	MaxOpN         int    `json:"maxOpN"` // applied to every fragment after each write (0 = leave the default)
@@ -305,7 +306,10 @@ func (s *vc09State) apply(sc *vc09Schema, w *vc09Write, ids *vc09IDs) {
 				}
 			}
 		}
-		s.setBit(w.Field, viewStandard, row, col)
+		if !(ft == FieldTypeTime && sc.NoStandardView) {
+			// a noStandardView time field stores nothing for a bit without timestamp
+			s.setBit(w.Field, viewStandard, row, col)
+		}
 		if ts != "" {
 			for _, v := range viewsByTime(viewStandard, vc09ParseTS(ts), TimeQuantum(sc.Quantum)) {
 				s.setBit(w.Field, v, row, col)
@@ -345,6 +349,13 @@ func (s *vc09State) apply(sc *vc09Schema, w *vc09Write, ids *vc09IDs) {
 	case "importclear":
 		n := len(w.Cols) + len(w.ColKeys)
 		for i := 0; i < n; i++ {
+			if ft == FieldTypeTime {
+				// a clear import cannot carry timestamps: it clears every view, as Clear() does
+				for _, v := range s.views(w.Field) {
+					s.clearBit(w.Field, v, ids.row(w, i), ids.col(w, i))
+				}
+				continue
+			}
 			s.clearBit(w.Field, viewStandard, ids.row(w, i), ids.col(w, i))
 		}
 	case "importvalue":
@@ -415,6 +426,7 @@ func vc09GenHistory(t *rapid.T) *vc09History {
 	sc.IndexKeys = rapid.IntRange(0, 3).Draw(t, "indexKeys") == 0
 	sc.TrackExistence = rapid.Bool().Draw(t, "trackExistence")
 	sc.Quantum = rapid.SampledFrom([]string{"YMDH", "YMD", "YM", "D", "H"}).Draw(t, "quantum")
+	sc.NoStandardView = rapid.IntRange(0, 3).Draw(t, "noStandardView") == 0
 	rng := rapid.SampledFrom([][2]int64{{-1000, 1000}, {0, 100000}, {-5, 5}, {-1 << 40, 1 << 40}}).Draw(t, "intRange")
 	sc.IntMin, sc.IntMax = rng[0], rng[1]
 	sc.MaxOpN = rapid.SampledFrom([]int{2, 5, 12, 0}).Draw(t, "maxOpN")
@@ -480,7 +492,6 @@ func vc09GenHistory(t *rapid.T) *vc09History {
 			if !sc.IndexKeys {
 				w.Shard = uint64(rapid.IntRange(0, 2).Draw(t, "shard"))
 			}
-			usedCols := map[string]bool{}
 			for j := 0; j < cnt; j++ {
 				var e vc09Write
 				if sc.IndexKeys {
@@ -488,12 +499,6 @@ func vc09GenHistory(t *rapid.T) *vc09History {
 				} else {
 					e.Col = w.Shard*ShardWidth + rapid.SampledFrom([]uint64{0, 1, 2, 3, 65535, 65536, ShardWidth - 1}).Draw(t, "colInShard")
 				}
-				ck := fmt.Sprint(e.Col, "/", e.ColKey)
-				if (w.Field == "m" || w.Field == "b") && usedCols[ck] {
-					// one entry per column in a mutex batch (duplicates hit D15, owned by another group)
-					continue
-				}
-				usedCols[ck] = true
 				genRow(&e, w.Field, "row")
 				if sc.IndexKeys {
 					w.ColKeys = append(w.ColKeys, e.ColKey)
